@@ -339,6 +339,9 @@ func instantToOffset(loc *time.Location, days, nsec int64) int {
 func (c *refCtx) toZone(d refDT) refDT {
 	days, n := d.instant()
 	off := instantToOffset(c.zoneLoc(), days, n)
+	if off%60 != 0 {
+		c.decline("zone offset with seconds (local mean time)")
+	}
 	n += int64(off) * 1e9
 	for n < 0 {
 		n += nsPerDay
@@ -424,6 +427,9 @@ func (c *refCtx) cast(d refDT, to dtKind) (refDT, *refErr) {
 				return refDT{}, tzRequired()
 			}
 			off, clean := localToOffset(c.zoneLoc(), d.days, d.nsec)
+			if off%60 != 0 {
+				c.decline("zone offset with seconds (local mean time)")
+			}
 			if !clean {
 				c.decline("local time missing or ambiguous in the context zone")
 			}
